@@ -102,17 +102,17 @@ Definition map_values_acc {A} (g : V -> A -> V * A) :=
     | [] => ([], a)
     | (k, v) :: vs' => let '(v', a1) := g v a in let '(r, a2) := go_vs vs' a1 in ((k, v') :: r, a2)
     end.
+Definition map_acc_list {A} (h : item -> A -> item * A) :=
+  fix go (l : list item) (a : A) : list item * A :=
+    match l with
+    | [] => ([], a)
+    | x :: l' => let '(x', a1) := h x a in let '(r, a2) := go l' a1 in (x' :: r, a2)
+    end.
 Fixpoint map_acc {A} (g : V -> A -> V * A) (it : item) (a : A) {struct it} : item * A :=
   match it with
   | Empty ic => (Empty ic, a)
   | Leaf re ic c vs => let '(vs', a') := map_values_acc g vs a in (Leaf re ic c vs', a')
-  | Node re ic c cs =>
-      let '(cs', a') := (fix go (l : list item) (a : A) : list item * A :=
-                           match l with
-                           | [] => ([], a)
-                           | x :: l' => let '(x', a1) := map_acc g x a in let '(r, a2) := go l' a1 in (x' :: r, a2)
-                           end) cs a in
-      (Node re ic c cs', a')
+  | Node re ic c cs => let '(cs', a') := map_acc_list (fun x a => map_acc g x a) cs a in (Node re ic c cs', a')
   end.
 
 (* ItemIter: every stored value *)
